@@ -1220,24 +1220,13 @@ func (rd *c11sRound) runListing() {
 			rd.stallPlan(s, sid, "churn", []string{"stalled-own-errors"}, 2, churnJobs)
 		}
 	}
-	tt := time.Now()
-	lap := func(what string) {
-		if os.Getenv("C11S_TIMING") != "" {
-			vk.Logf("c11serv round %d: %s %.2fs", rd.cfg.Idx, what, time.Since(tt).Seconds())
-		}
-		tt = time.Now()
-	}
 	rd.startStallers()
-	lap("non-readers blocked")
 	if rd.progressAll("stalled") && rd.runReconnects() {
-		lap("reconnects")
 		rd.runVanishers(6)
-		lap("churn")
 		rd.progressAll("churn")
 	}
 	rd.releaseStallers(nil)
 	rd.progress("departure", nil)
-	lap("departure")
 	if rd.aborted.Load() {
 		rd.serverPaths()
 		return
